@@ -875,6 +875,9 @@ pub(crate) mod convert {
     use crate::read::{self, Reader};
     use crate::write::{ConvertDebugInfoRef, ConvertError, ConvertResult};
 
+    /// The maximum nesting of `DW_OP_entry_value` expressions that is converted.
+    pub(crate) const MAX_ENTRY_VALUE_DEPTH: usize = 32;
+
     impl Expression {
         /// Create an expression from the input expression.
         pub(crate) fn from<R: Reader<Offset = usize>>(
@@ -884,6 +887,23 @@ pub(crate) mod convert {
             convert_address: &dyn Fn(u64) -> Option<Address>,
             refs: &dyn ConvertDebugInfoRef,
         ) -> ConvertResult<Expression> {
+            Self::from_nested(from_expression, encoding, unit, convert_address, refs, 0)
+        }
+
+        /// Convert an expression that is nested within `depth` `DW_OP_entry_value` operations.
+        fn from_nested<R: Reader<Offset = usize>>(
+            from_expression: read::Expression<R>,
+            encoding: Encoding,
+            unit: Option<read::UnitRef<'_, R>>,
+            convert_address: &dyn Fn(u64) -> Option<Address>,
+            refs: &dyn ConvertDebugInfoRef,
+            depth: usize,
+        ) -> ConvertResult<Expression> {
+            // Limit the recursion so that malformed input can't overflow the stack.
+            if depth > MAX_ENTRY_VALUE_DEPTH {
+                return Err(ConvertError::UnsupportedOperation);
+            }
+
             // Calculate offsets for use in branch/skip operations.
             let mut offsets = Vec::new();
             let mut offset = 0;
@@ -1013,12 +1033,13 @@ pub(crate) mod convert {
                         Operation::ImplicitPointer { entry, byte_offset }
                     }
                     read::Operation::EntryValue { expression } => {
-                        let expression = Expression::from(
+                        let expression = Expression::from_nested(
                             read::Expression(expression),
                             encoding,
                             unit,
                             convert_address,
                             refs,
+                            depth + 1,
                         )?;
                         Operation::EntryValue(expression)
                     }
